@@ -14,7 +14,7 @@ ast.Modify with the ModifyRegister callback).
 Statement (evaluated on the implementation's observation, using only the SPECIFICATION `refuses` /
 `substAll` / `registerEligible`, never `modifyR`): for every candidate in turn
   * kept ⇔ integer value ∧ name non-empty ∧ registers enabled ∧ a register is free ∧ not a constant name ∧ not a
-    reserved name (`self`, `info`, a registered extension function) ∧ ¬ refuses; the register is then the next free one, and the number of its nodes in the final tree is the
+    reserved name (`self`, `info`, a registered extension function) ∧ no later candidate of the same name ∧ ¬ refuses; the register is then the next free one, and the number of its nodes in the final tree is the
     number of identifier nodes of that name;
   * the final tree is the body in which exactly the identifier nodes of the kept names became their registers
     (so erasing the registers gives back the body).
@@ -130,6 +130,8 @@ def specRun (noReg : Bool) : Nat → List (String × Bool) → RNode → List Fl
   | _, [], body => ([], body)
   | numReg, (name, isInt) :: rest, body =>
     let f : Reg.File := { regs := [], numReg := numReg }
+    -- a parameter shadowed by a later parameter of the same name is never a register (the last one wins)
+    let isInt := isInt && !(rest.any fun p => p.1 == name)
     if !(isInt && registerEligible noReg f name) then
       let (fs, b) := specRun noReg numReg rest body
       ({ kept := false, idx := Option.none, count := 0 } :: fs, b)
